@@ -32,7 +32,7 @@ from typing import TYPE_CHECKING, Any, Protocol
 
 from happysimulator.core.entity import Entity
 from happysimulator.core.event import Event
-from happysimulator.core.temporal import Instant
+from happysimulator.core.temporal import Duration, Instant
 
 if TYPE_CHECKING:
     from collections.abc import Callable, Generator
@@ -242,7 +242,18 @@ class StreamProcessor(Entity):
             late_event_policy: How to handle late events.
             side_output: Entity to receive LateEvent events (for SIDE_OUTPUT policy).
             watermark_interval_s: Interval between watermark self-scheduling.
+
+        Raises:
+            ValueError: If watermark_interval_s is below one nanosecond.
         """
+        # Simulation time is integer nanoseconds: an interval below one nanosecond
+        # (or zero / negative) would make the watermark daemon re-schedule itself
+        # at the current instant forever (the clock never advances).
+        if Duration.from_seconds(float(watermark_interval_s)).nanoseconds <= 0:
+            raise ValueError(
+                f"watermark_interval_s must be at least one nanosecond, got {watermark_interval_s}"
+            )
+
         super().__init__(name)
         self._window_type = window_type
         self._aggregate_fn = aggregate_fn
